@@ -3,6 +3,7 @@ _init_agent; (ii) real optimizers run with a recording objective, every reported
 argument decided against the property text."""
 from __future__ import annotations
 import json
+import random
 import math
 
 import numpy as np
@@ -195,6 +196,14 @@ def make_jobs(ctx, focus: str):
             vs = r.choice([[("disc", 4), ("binary", 3), ("cont", (-2.0, 2.0))], [("perm", 6)], [("discmulti", [3, 5, 2])]])
             t = {"vars": vs, "obj": "abs" if vs[0][0] != "perm" else "linear", "minmax": "min", "seed": r.randint(0, 10**6)}
             jobs.append({"opt": nm, "cfg": {"max_cycles": 2, "fitness_error": None}, "task": t, "record": True, "integer_coded": True})
+    # discrete variables with MANY choices (a size from which n - eps == n in doubles): the choice index handed to the objective stays below n.
+    # Own generator: the jobs above are unchanged by this family
+    r2 = random.Random(f"big-discrete:{getattr(ctx, 'seed', 1)}")
+    for nm in (r2.sample(names, 10) if ctx.quick else names):
+        if focus in ("space", "calls") or not ctx.quick:
+            jobs.append({"opt": nm, "cfg": {"max_cycles": 2, "fitness_error": None}, "record": True, "integer_coded": True, "family": "big-discrete",
+                         "task": {"vars": [("disc", r2.choice([16385, 20000, 70001])), ("disc", 3), ("cont", (-2.0, 2.0))], "obj": "abs", "minmax": r2.choice(["min", "max"]),
+                                  "seed": r2.randint(0, 10**6)}})
     return jobs
 
 
